@@ -30,7 +30,7 @@ Lemma ex_seeded_duplicate :
   = Ok [kind_code K_SCHEMA_DUPLICATE_NODE].
 Proof. vm_cast_no_check (@eq_refl (res (list str)) (Ok [kind_code K_SCHEMA_DUPLICATE_NODE])). Qed.
 
-(* C14-F1, the record of the repaired defect: before the repair the validators of the undeclared
+(* C14-F1, the record of the repaired defect: before fix commit 55e2b09 the validators of the undeclared
    attribute defaultUnits were run on the tag Event and the check raised ... *)
 Lemma ex_undeclared_attribute_raised :
   has_tag s830 (s2str "Event") = true
@@ -48,4 +48,24 @@ Lemma ex_undeclared_attribute_reported :
      = Ok [kind_code K_SCHEMA_ATTRIBUTE_INVALID].
 Proof.
   split; vm_cast_no_check (@eq_refl (res (list str)) (Ok [kind_code K_SCHEMA_ATTRIBUTE_INVALID])).
+Qed.
+
+(* ---- the same two seeded schemas, now THROUGH the seeded-fault theorems: every premise (the schema loads,
+   [checkable], the entry is visited, the fault is present at it) is established by one kernel evaluation of a
+   boolean witness; the conclusion then comes from C14_seeded_in_library / C14_seeded_undeclared_attribute. *)
+Lemma ex_in_library_through_theorem :
+  exists L issues, load env_830 seeded_in_library_830 = Ok L /\ check_loaded fixed_all env_830 true L = Ok issues
+                   /\ In (kind_code K_SCHEMA_IN_LIBRARY_INVALID) (codes issues).
+Proof.
+  apply (in_library_through_theorem env_830 seeded_in_library_830 SecTags (s2str "Event") (s2str "otherlib")).
+  vm_cast_no_check (@eq_refl bool true).
+Qed.
+
+Lemma ex_undeclared_through_theorem :
+  exists L issues, load env_830 seeded_default_units_on_tag_830 = Ok L
+                   /\ check_loaded fixed_all env_830 true L = Ok issues
+                   /\ In (kind_code K_SCHEMA_ATTRIBUTE_INVALID) (codes (filter is_error issues)).
+Proof.
+  apply (undeclared_through_theorem env_830 seeded_default_units_on_tag_830 SecTags (s2str "Event") HedKey_DefaultUnits).
+  vm_cast_no_check (@eq_refl bool true).
 Qed.
